@@ -82,6 +82,15 @@ Qed.
 
 Definition dtor_okP (dtor : nat -> code -> code) : Prop := forall d k', code_okP F k' -> code_okP F (dtor d k').
 
+Lemma recv_all_code_okP : forall n ch k, code_okP F k -> code_okP F (recv_all_code n ch k).
+Proof.
+  induction n as [|n IH]; intros ch k Hk; cbn [recv_all_code]; [apply okP_log; apply okP_panic|].
+  apply (chan_recv_code_okP F HF). intros res.
+  destruct res; try (apply okP_log; apply IH; exact Hk);
+    (apply okP_log; apply (atomic_u_okP F HF); [|apply okP_log; exact Hk];
+     intros e s e' s' Hr H; cbv beta in H; eapply chan_drop_rx_sframe; [exact Hr|exact H]).
+Qed.
+
 Lemma thread_fin_okP : forall tls dtor gs ahs, dtor_okP dtor -> code_okP F (thread_fin tls dtor gs ahs).
 Proof.
   intros tls dtor gs ahs Hd. unfold thread_fin. apply okP_log. apply drop_guards_okP. apply detach_all_okP.
@@ -295,6 +304,9 @@ Proof.
       apply (acq_poll_code_okP F HF). intros res. apply okP_log. apply IHr.
     + (* PAcqDrop *)
       apply (acq_drop_code_okP F HF). apply okP_log. apply IHr.
+    + (* PRecvAll *)
+      apply alive_okP. intros alive. destruct alive; [|apply okP_panic].
+      apply recv_all_code_okP. apply IHr.
 Qed.
 
 Theorem compile_okP : forall jt bodies, (panic_ok F \/ no_panic_op bodies) -> code_okP F (compile jt bodies).
